@@ -246,7 +246,7 @@ func c18OtherConn(out *emit.Out, scenario string, in c18Input) {
 	c2 := cookieOf(resp)
 	out.Add(emit.Case{Scenario: scenario, Trivial: false, Input: in,
 		Observed: map[string]interface{}{"cookie_len": len(c1), "responses": len(resp), "first": firstT, "key_ops": ops, "same_cookie": len(c1) > 0 && string(c1) == string(c2)},
-		Coq: fmt.Sprintf("OtherConnCase %s %d%%nat %d %d%%nat %s", emit.Bool(len(c1) > 0), len(resp), firstT, ops, emit.Bool(len(c1) > 0 && string(c1) == string(c2)))})
+		Coq:      fmt.Sprintf("OtherConnCase %s %d%%nat %d %d%%nat %s", emit.Bool(len(c1) > 0), len(resp), firstT, ops, emit.Bool(len(c1) > 0 && string(c1) == string(c2)))})
 }
 
 func c18Loop(out *emit.Out, scenario string, in c18Input) {
